@@ -74,6 +74,18 @@ def _ops(ctx, g, m, dims):
     if per_side:
         O['periodic_on'] = lambda st, k: setattr(getattr(st.phi.BCs, per_side), 'periodic', True)
         O['periodic_off'] = lambda st, k: setattr(getattr(st.phi.BCs, per_side), 'periodic', False)
+    # augmented assignment on a whole coefficient through the property: in-place ufunc (which raises no dirty bit by itself), then the setter
+    def _aug(side, nm, op):
+        def f(st, k):
+            face = getattr(st.phi.BCs, side)
+            v = getattr(face, nm)
+            v = op(v, S(k, 'aug_' + nm))
+            setattr(face, nm, v)
+        return f
+    import operator
+    O['iadd_c'] = _aug(hi, 'c', operator.iadd)
+    O['imul_a'] = _aug(lo, 'a', operator.imul)
+    O['isub_b'] = _aug(last_lo, 'b', operator.isub)
     O['value_assign'] = lambda st, k: setattr(st.phi, 'value', A(k, 'v', tuple(dims)))
     O['value_slice'] = lambda st, k: st.phi.value.__setitem__((slice(0, 1),) * len(dims), S(k, 'vs'))
     O['update_value'] = lambda st, k: st.phi.update_value(pf.CellVariable(m, A(k, 'uv', tuple(dims))))
@@ -149,6 +161,11 @@ def _ops(ctx, g, m, dims):
         psi = pf.CellVariable(m, A(k, 'pa', tuple(dims)), st.phi.BCs)
         psi.apply_BCs()
     O['shared_bc_other_applies'] = share_apply
+
+    def share_construct(st, k):
+        # a second variable is merely CONSTRUCTED on the same boundary-condition object (a second species); nothing else is done with it
+        pf.CellVariable(m, A(k, 'pc', tuple(dims)), st.phi.BCs)
+    O['shared_bc_other_constructed'] = share_construct
     return O
 
 
@@ -283,6 +300,22 @@ def scenarios(tier):
         for final, style in ((('implicit', 'passed'), ('explicit', 'default')) if tier == 'quick' else
                              (('implicit', 'passed'), ('implicit', 'default'), ('explicit', 'passed'), ('explicit', 'default'))):
             add(g, dims, s1 + s2, final, style, chunk=20 if len(dims) == 3 else 40)
+    # augmented assignments (`BC.right.c += x`): not part of the exhaustive alphabet, every placement relative to one settling operation
+    aug = ['iadd_c', 'imul_a', 'isub_b']
+    augseqs = [[a] for a in aug] + [[s_, a] for s_ in settle + ['value_assign'] for a in aug] + [[a, s_] for s_ in settle for a in aug] + \
+              [['iadd_c', 'imul_a', 'isub_b'], ['solvePDE', 'iadd_c', 'solvePDE'], ['set_c', 'solvePDE', 'iadd_c']]
+    edits_bc = ['set_a', 'set_b_slice', 'set_c', 'fixedValue', 'fixedGradient', 'newtonCooling', 'defaultNoFlux']
+    augseqs += [[e, 'shared_bc_other_constructed'] for e in edits_bc] + [['solvePDE', e, 'shared_bc_other_constructed'] for e in edits_bc[:3]] + \
+               [['shared_bc_other_constructed', e] for e in edits_bc[:3]] + [['shared_bc_other_constructed']]
+    # the healed forms of the recorded shared-object finding: once the first variable is touched again, nothing stale may survive
+    heal = ['value_assign', 'value_slice', 'update_value', 'apply_BCs', 'set_c']
+    augseqs += [[e, sh, h] for e in ('set_a', 'fixedValue') for sh in ('shared_bc_other_solves', 'shared_bc_other_applies') for h in heal]
+    for g, dims in (('Grid1D', [2]), ('CylindricalGrid1D', [2]), ('Grid2D', [2, 2])) + ((('PolarGrid2D', [2, 2]), ('Grid3D', [2, 2, 2])) if tier != 'quick' else ()):
+        for final, style in (('implicit', 'passed'), ('implicit', 'default'), ('explicit', 'default')):
+            for k in range(0, len(augseqs), 20):
+                T.append({'name': 'augassign/%s/%s/%s/%d' % (g, final, style, k // 20), 'fn': 'pv.props.c09:histories',
+                          'params': {'g': g, 'dims': dims, 'seqs': augseqs[k:k + 20], 'final': final, 'style': style}, 'timeout': 30,
+                          'validate': 1, 'batch': 12})
     # random longer histories (fixed seed: the set is the same on every run; every value written is still a fresh symbol)
     import random
     import os
